@@ -29,6 +29,7 @@ FAMILIES = {
     "subq2": dict(seed=122, n=1500, gen="Shapes2", opts={"only_shapes": ["corr_exists_noneq", "corr_exists_or"]}),
     "cte2": dict(seed=123, n=1500, gen="Shapes2", opts={"only_shapes": ["cte_multi", "cte_semi"]}),
     "samecols": dict(seed=133, n=800, gen="Shapes2", opts={"only_shapes": ["samecols_semi"]}),
+    "limit0": dict(seed=137, n=500, gen="Shapes2", opts={"only_shapes": ["limit_zero"]}),
     "unionjoin": dict(seed=131, n=600, gen="Shapes2", opts={"only_shapes": ["union_join_str"]}),
     "setop3": dict(seed=124, n=1500, gen="Shapes2", opts={"only_shapes": ["setop_chain"]}),
     "aggwide": dict(seed=125, n=1000, gen="Shapes2", opts={"only_shapes": ["agg_wide"]}),
